@@ -18,7 +18,12 @@ WELL_KNOWN = {0xFFFF0000: 'PLANNED_SHUT', 0xFFFF0001: 'ACCEPT_OWN', 0xFFFF0002: 
 
 def norm(x):
     """JSON normalisation: tuples = lists, int keys -> str"""
-    return json.loads(json.dumps(x, sort_keys=True, default=lambda o: o.decode('latin1') if isinstance(o, bytes) else repr(o)))
+    try:
+        return json.loads(json.dumps(x, sort_keys=True, default=lambda o: o.decode('latin1') if isinstance(o, bytes) else repr(o)))
+    except TypeError as e:
+        # keys of mixed types in one dictionary (json cannot sort them - nor can a REST view that sorts its keys): what the
+        # code under test returned is kept visible as a value that equals nothing expected
+        return {'__not_json_sortable__': '%s: %r' % (e, x)}
 
 
 def ipv4(rng, kind=None):
